@@ -60,6 +60,8 @@ type plan struct {
 	Burst   bool   `json:"burst,omitempty"`
 	// LingerMs: how long the launcher process stays alive after launch() returned
 	LingerMs int `json:"linger_ms,omitempty"`
+	// ScrubEnv: the daemon clears its environment before calling Done()
+	ScrubEnv bool `json:"scrub_env,omitempty"`
 }
 
 func waitFile(path string, d time.Duration) bool {
@@ -103,6 +105,13 @@ func daemonBody(registered string) {
 		if !waitFile(filepath.Join(dir, "d-pre.go"), 30*time.Second) {
 			os.Exit(97)
 		}
+	}
+	if p.ScrubEnv {
+		// a careful daemon removes the role variables so that helpers it starts
+		// from the same binary are not taken for daemons
+		base := os.Getenv("PW_BASE")
+		os.Clearenv()
+		os.Setenv("PW_BASE", base)
 	}
 	err := daemon.Done()
 	os.WriteFile(filepath.Join(dir, "d-done.tmp"), []byte(fmt.Sprint(err)), 0644)
@@ -454,7 +463,7 @@ func main() {
 			if burst {
 				k = "S1"
 			}
-			plans = append(plans, plan{Kind: k, Markers: r.next(6), Name: fmt.Sprintf("h%d", i), Group: group, Burst: burst, LingerMs: []int{0, 0, 3, 40}[r.next(4)]})
+			plans = append(plans, plan{Kind: k, Markers: r.next(6), Name: fmt.Sprintf("h%d", i), Group: group, Burst: burst, LingerMs: []int{0, 0, 3, 40}[r.next(4)], ScrubEnv: r.next(4) == 0})
 		}
 	}
 	var outs []outcome
@@ -497,7 +506,7 @@ func main() {
 		if groupSize[o.Plan.Group] > 1 {
 			st.Concurrent++
 		}
-		distinct[fmt.Sprintf("%s/%d/%d/%d", o.Plan.Kind, o.Plan.Markers, groupSize[o.Plan.Group], o.Plan.LingerMs)] = true
+		distinct[fmt.Sprintf("%s/%d/%d/%d", o.Plan.Kind, o.Plan.Markers, groupSize[o.Plan.Group], o.Plan.LingerMs)+fmt.Sprint(o.Plan.ScrubEnv)] = true
 		if o.Infra != "" {
 			st.Infra = append(st.Infra, o.Plan.Kind+": "+o.Infra)
 		}
